@@ -7,7 +7,7 @@ from vlib import mcserver, ops
 from vlib.harness import Env
 from vlib.runner import Part, Violation, ddmin_list
 
-from pymemcache.exceptions import MemcacheClientError
+from pymemcache.exceptions import MemcacheClientError, MemcacheServerError
 
 PROPERTY = "C05"
 LEVEL = "exploration"
@@ -85,6 +85,31 @@ class Model:
         """-> ("ok", value) | ("exc", ExceptionClass)"""
         op = r["op"]
         k = r.get("key")
+        # stores the server refuses although they are well-formed (the item is too large for it, memory is exhausted, a proxy
+        # could not complete the store): nothing is stored; with a reply awaited the refusal is reported - SERVER_ERROR as
+        # MemcacheServerError, NOT_STORED as False / in the list of failed keys -, without one the documented constant
+        refuse = getattr(self, "refuse", {})
+        if op in ("set", "setitem", "add", "replace", "append", "prepend", "cas") and refuse.get(k) and not (op == "cas" and refuse[k] == "not-stored"):
+            nr = True if op == "setitem" else self._nr(r, op == "cas")
+            if nr:
+                return ("ok", None if op == "setitem" else True)
+            if refuse[k] == "not-stored":
+                return ("ok", False)
+            return ("exc", MemcacheServerError)
+        if op == "set_many" and any(refuse.get(kk) for kk in r["values"]):
+            # the whole batch is on the wire before the first reply is read: every accepted item is stored
+            for kk, v in r["values"].items():
+                if not refuse.get(kk):
+                    self._put(kk, v, r.get("expire", 0))
+            if self._nr(r):
+                return ("ok", [])
+            failed = []
+            for kk in r["values"]:
+                if refuse.get(kk) in ("too-large", "oom"):
+                    return ("exc", MemcacheServerError)
+                if refuse.get(kk) == "not-stored":
+                    failed.append(kk)
+            return ("ok", failed)
         if op in ("set", "setitem"):
             self._put(k, r["value"], r.get("expire", 0))
             return ("ok", None if op == "setitem" else True)
@@ -214,6 +239,10 @@ def run_history(case):
                    **({"allow_unicode_keys": True} if cfg.get("allow_unicode_keys") else {}))
     universe = KEYS + (UKEYS if cfg.get("allow_unicode_keys") else [])
     model = Model(clock, cfg.get("default_noreply", True))
+    model.refuse = dict(cfg.get("refuse") or {})
+    pfx = cfg.get("key_prefix", b"")
+    pfx = pfx.encode("ascii") if isinstance(pfx, str) else pfx
+    env.server.refuse.update({pfx + k_.encode("utf-8"): m_ for k_, m_ in model.refuse.items()})
     tokens = {}            # key -> (real token, model version)
     labels = set()
     dependent = False
@@ -363,6 +392,17 @@ def exhaustive_cases(tier, seed):
         for spell in (None, [0, 1, 0], [1, 1, 0]):
             yield {"kind": ("client", "pooled", "hash", "hash-pooled")[sum(seq) % 4], "cfg": {"key_prefix": b"" if sum(seq) % 2 else b"u:", "default_noreply": False, "allow_unicode_keys": True},
                    "steps": [tw[i] for i in seq], "spell": spell}
+    # batches in which the server refuses one item and stores the others, the refused one first / in the middle / last
+    for mode in ("too-large", "oom", "not-stored"):
+        for pos in (0, 1, 2):
+            keys = ["k0", "k1", "k2"]
+            vals = {kk: b"v-" + kk.encode() for kk in keys}
+            for nr in (False, True):
+                for pre in ([], [{"op": "set", "key": keys[pos], "value": b"old", "noreply": False}]):
+                    for kind in ("client", "pooled", "hash", "hash-pooled"):
+                        yield {"kind": kind, "cfg": {"key_prefix": b"r:" if pos else b"", "default_noreply": False, "refuse": {keys[pos]: mode}},
+                               "steps": pre + [{"op": "set_many", "values": vals, "noreply": nr}, {"op": "get_many", "keys": keys}, {"op": "add", "key": keys[pos], "value": b"a", "noreply": False},
+                                               {"op": "set", "key": keys[pos], "value": b"again", "noreply": nr}, {"op": "gets", "key": keys[(pos + 1) % 3]}]}
     if tier == "thorough":
         # every sequence of length 4 over the full 25-instance alphabet (390 625)
         for seq in itertools.product(range(len(ALPHA)), repeat=4):
@@ -417,7 +457,8 @@ def _history_strategy(tier, uni):
         st.fixed_dictionaries({"op": st.just("advance"), "seconds": st.sampled_from([1, 1, 2, 3, 5, 10, DAY30])}))
     step = st.one_of(store, store, cas, read, read, arith, other)
     cfg = st.fixed_dictionaries({"key_prefix": st.sampled_from([b"", b"", b"ns:", "sp."]), "default_noreply": st.booleans(), "allow_unicode_keys": st.just(uni),
-                                 "cas_start": st.sampled_from([0, 999999990, 2 ** 32 + 5, 2 ** 63 + 11, 2 ** 64 - 500])})
+                                 "cas_start": st.sampled_from([0, 999999990, 2 ** 32 + 5, 2 ** 63 + 11, 2 ** 64 - 500]),
+                                 "refuse": st.sampled_from([None, None, None, {"k2": "too-large"}, {"k1": "not-stored"}, {"k2": "oom"}, {"k1": "too-large", "k2": "not-stored"}])})
     return st.fixed_dictionaries({"kind": st.sampled_from(["client", "pooled", "hash", "hash-pooled"]), "cfg": cfg,
                                   "steps": st.lists(step, min_size=1, max_size=25),
                                   "spell": st.one_of(st.none(), st.lists(st.integers(0, 1), min_size=1, max_size=7))})
